@@ -22,7 +22,9 @@ impl StateMachine<'_> {
 
     #[inline]
     fn test_submodule_short_line(&self) -> bool {
-        matches!(self.state, State::HunkHeader(_, _, _, _))
+        // (in the section of a submodule only: an ordinary file may quote such lines)
+        self.in_submodule_section
+            && matches!(self.state, State::HunkHeader(_, _, _, _))
             && self.line.starts_with("-Subproject commit ")
             || matches!(self.state, State::SubmoduleShort(_))
                 && self.line.starts_with("+Subproject commit ")
